@@ -11,7 +11,7 @@ open HTree
 
 namespace Forest
 
-theorem removeConsolidate_none (g : Forest) : g.removeConsolidate none none = (g, false) := by
+theorem fi_removeConsolidate_none (g : Forest) : g.removeConsolidate none none = (g, false) := by
   unfold removeConsolidate; split <;> rfl
 
 theorem structureCheck_eval {g : Forest} {p c : Nat} {pv cv : Value}
@@ -63,7 +63,7 @@ theorem append_root_explicit {g : Forest} (nd : g.allHandles.Nodup) {R0 : List H
     rw [ancestors_of_loc lcW nd]; simp [hwa, Ne.symm hwa]
   unfold append
   simp only [hsc, hlast, Bool.not_true, Bool.false_eq_true, if_false, prevSibling_of_loc_nil lcA nd,
-    nextSibling_of_loc_nil lcA nd, removeConsolidate_none, addConsolidate_none_none]
+    nextSibling_of_loc_nil lcA nd, fi_removeConsolidate_none, addConsolidate_none_none]
   have hne : (none == some a) = false := rfl
   simp only [hne, Bool.false_eq_true, if_false]
   unfold checkedAppend
@@ -95,7 +95,7 @@ theorem not_anc_of_other_root {g : Forest} (nd : g.allHandles.Nodup) {L : List H
 
 /-- `insert_after(P, w)` for a parentless non-text normal node `w` (the last root) and a
     non-root normal node `P`. -/
-theorem insertAfter_root_explicit {g : Forest} (nd : g.allHandles.Nodup) {init : List Frame} {fr : Frame}
+theorem insertAfter_root_explicit {g : Forest} (nd : g.allHandles.Nodup) {init : List ZipFrame} {fr : ZipFrame}
     {l0 : List HTree} {P : HTree} {r : List HTree} {Wt : HTree}
     (hr : g.roots = plug (init ++ [fr]) (l0 ++ P :: r) ++ [Wt])
     (hfrk : fr.v.isElement = true ∨ fr.v.isDocument = true)
@@ -118,7 +118,7 @@ theorem insertAfter_root_explicit {g : Forest} (nd : g.allHandles.Nodup) {init :
     exact (lcW.fresh nd).left (e ▸ hx)
   have hPin : P.handle ∈ handlesList (plug (init ++ [fr]) (l0 ++ P :: r)) := by
     rw [mem_handlesList_plug]; right
-    simp only [fi_handlesList_append, handlesList_cons, List.mem_append]
+    simp only [fi_handlesList_append, fi_handlesList_cons, List.mem_append]
     exact Or.inr (Or.inl (fi_handle_mem_handles P))
   have hParin : fr'.h ∈ handlesList (plug (init ++ [fr]) (l0 ++ P :: r)) := by
     rw [hfh, mem_handlesList_plug]; left
@@ -143,7 +143,7 @@ theorem insertAfter_root_explicit {g : Forest} (nd : g.allHandles.Nodup) {init :
       simp only [List.head?_cons, Option.bind_some]
       have hNin : N.handle ∈ handlesList (plug (init ++ [fr]) (l0 ++ P :: N :: r0)) := by
         rw [mem_handlesList_plug]; right
-        simp only [fi_handlesList_append, handlesList_cons, List.mem_append]
+        simp only [fi_handlesList_append, fi_handlesList_cons, List.mem_append]
         exact Or.inr (Or.inr (Or.inl (fi_handle_mem_handles N)))
       split
       · simp [(hL _ hNin).1]
@@ -151,7 +151,7 @@ theorem insertAfter_root_explicit {g : Forest} (nd : g.allHandles.Nodup) {init :
   have htw : g.textOf Wt.handle = none := textOf_none_of_value (value?_of_loc lcW nd) hWt
   unfold insertAfter
   simp only [hpar, hsc, hsr, hnext, Bool.not_true, Bool.false_eq_true, if_false,
-    prevSibling_of_loc_nil lcW nd, nextSibling_of_loc_nil lcW nd, removeConsolidate_none,
+    prevSibling_of_loc_nil lcW nd, nextSibling_of_loc_nil lcW nd, fi_removeConsolidate_none,
     Bool.false_and, fi_addConsolidate_nontext _ _ htw]
   unfold checkedInsertAfter
   rw [if_neg (hL _ hPin).1, (hL _ hPin).2, isRoot_of_loc_ne lcP (by simp) nd, cut_of_loc lcW nd]
@@ -167,7 +167,7 @@ theorem insertAfter_root_explicit {g : Forest} (nd : g.allHandles.Nodup) {init :
 theorem validTree_wrapper {s : Bool} {w name : Nat} {A : HTree} (hA : validTree s A = true)
     (hn : A.value.category = .normal) (hd : A.value.isDocument = false) :
     validTree s (.node w (.element name) [A]) = true := by
-  rw [validTree_node, Bool.and_eq_true]
+  rw [fi_validTree_node, Bool.and_eq_true]
   refine ⟨(kidsOK_iff _ _ _).mpr ⟨?_, ?_, ?_, ?_, ?_⟩, by simp [hA]⟩
   · intro k hk; simp only [List.mem_singleton] at hk; subst hk; simp [kidAllowed, hd]
   · simp [Sorted]
@@ -260,8 +260,8 @@ theorem elementWrap_inv_of_gap {f : Forest} (hi : f.Inv) (node name : Nat) (hg :
     refine (List.Perm.nodup_iff ?_).mpr hi1.nodup
     refine List.Perm.trans ?_ hp
     unfold allHandles
-    simp only [← hplug, fi_handlesList_append, handlesList_cons, handlesList_nil, List.append_nil,
-      handles_node, List.append_assoc]
+    simp only [← hplug, fi_handlesList_append, fi_handlesList_cons, fi_handlesList_nil, List.append_nil,
+      fi_handles_node, List.append_assoc]
     rw [fi_handles_eq c.self, lc.hk]
   rw [append_root_explicit nd2 rfl hAn hAd]
   simp only
@@ -269,7 +269,7 @@ theorem elementWrap_inv_of_gap {f : Forest} (hi : f.Inv) (node name : Nat) (hg :
       [.node f.next (.element name) [.node node c.self.value c.self.kids]] } : Forest).allHandles.Nodup := by
     refine (List.Perm.nodup_iff ?_).mpr nd2
     unfold allHandles
-    simp only [fi_handlesList_append, handlesList_cons, handlesList_nil, List.append_nil, handles_node,
+    simp only [fi_handlesList_append, fi_handlesList_cons, fi_handlesList_nil, List.append_nil, fi_handles_node,
       List.append_assoc, List.cons_append, List.nil_append]
     exact List.Perm.refl _
   have hroots3 : ({ (f.newNode (.element name)).1 with roots := plug (init ++ [fr]) (c.left ++ c.right) ++
@@ -289,7 +289,7 @@ theorem elementWrap_inv_of_gap {f : Forest} (hi : f.Inv) (node name : Nat) (hg :
     rw [hroots1, ← hplug, hl, fi_handlesList_append]
     refine (handlesList_plug_perm _ _).trans (List.Perm.trans ?_
       ((handlesList_plug_perm _ _).symm.append_right _))
-    simp only [fi_handlesList_append, handlesList_cons, handlesList_nil, List.append_nil, handles_node,
+    simp only [fi_handlesList_append, fi_handlesList_cons, fi_handlesList_nil, List.append_nil, fi_handles_node,
       List.append_assoc, List.cons_append, List.nil_append]
     rw [fi_handles_eq c.self, lc.hk]
     -- move the fresh handle to the end
